@@ -1071,6 +1071,19 @@ fn gen_c08(rng: &mut Rng, n: u64, lines: &mut Vec<String>) {
 		if i % 7 == 0 {
 			lines.push(format!("msg {}", hexs(&gen_batch_safe(rng))));
 		}
+		// a too-big result of a call whose string id is so long that even the -32008 error exceeds the limit:
+		// the error still carries the call's id
+		if i % 5 == 2 {
+			cn += 1;
+			let limit = *rng.pick(&[116u64, 120, 150, 200, 300]);
+			lines.push(format!("case {cn} srv 1000000 {limit} u"));
+			for idlen in [1usize, 10, 40, 100, 250] {
+				let lid = format!("\"{}\"", "i".repeat(idlen));
+				lines.push(format!("msg {}", hexs(&format!("{{\"jsonrpc\":\"2.0\",\"id\":{lid},\"method\":\"str\",\"params\":[{}]}}", limit + 10))));
+				lines.push(format!("msg {}", hexs(&format!("[{{\"jsonrpc\":\"2.0\",\"id\":{lid},\"method\":\"str\",\"params\":[{}]}}]", limit + 10))));
+			}
+			lines.push(format!("msg {}", hexs(&format!("{{\"jsonrpc\":\"2.0\",\"id\":18446744073709551615,\"method\":\"str\",\"params\":[{}]}}", limit + 10))));
+		}
 		// batches in which ONE entry is too big on its own while the array with its -32008 replacement fits
 		// (positions first / middle / last), and batches whose entries each fit but not together
 		if i % 4 == 1 {
